@@ -18,7 +18,8 @@ import re
 from . import common, l2
 from .l2 import Case
 
-NAMES = ["Alpha", "Beta", "Gamma", "Delta", "Unit", "BetaGamma", "EpsilonZetaEta", "Omega", "PhiChi", "Nothing", "Just", "LeftMost"]
+NAMES = ["Alpha", "Beta", "Gamma", "Delta", "Unit", "BetaGamma", "EpsilonZetaEta", "Omega", "PhiChi", "Nothing", "Just", "LeftMost", "Loop", "Match"]
+RAWABLE = ("Loop", "Match")     # written `r#Loop`: the method names use the unrawed name (`is_loop`)
 FNAMES = ["x", "y", "z"]
 DERIVE_ATTR = {"IsVariant": "is_variant", "Unwrap": "unwrap", "TryUnwrap": "try_unwrap", "TryInto": "try_into"}
 FORMS = ("owned", "ref", "mut")
@@ -120,18 +121,19 @@ class Field:
 
 
 class Variant:
-    __slots__ = ("name", "snake", "kind", "fields", "attr")
+    __slots__ = ("name", "ident", "snake", "kind", "fields", "attr")
 
-    def __init__(self, name, kind, fields):
+    def __init__(self, name, kind, fields, raw=False):
         self.name, self.snake, self.kind, self.fields = name, snake(name), kind, fields
+        self.ident = ("r#" + name) if raw else name
         self.attr = {}          # attr name -> None | "ignore" | "mark" | frozenset of selections
 
     def pattern(self, binders):
         if self.kind == "unit":
-            return "E::%s" % self.name
+            return "E::%s" % self.ident
         if self.kind == "tuple":
-            return "E::%s(%s)" % (self.name, ", ".join(binders))
-        return "E::%s { %s }" % (self.name, ", ".join("%s: %s" % (f.name, b) for f, b in zip(self.fields, binders)))
+            return "E::%s(%s)" % (self.ident, ", ".join(binders))
+        return "E::%s { %s }" % (self.ident, ", ".join("%s: %s" % (f.name, b) for f, b in zip(self.fields, binders)))
 
     def ti_types(self):
         return tuple(f.decl for f in self.fields if not f.ti_ignore)
@@ -217,11 +219,11 @@ class Enum:
                 if t:
                     out.append("    " + t)
             if v.kind == "unit":
-                out.append("    %s," % v.name)
+                out.append("    %s," % v.ident)
             elif v.kind == "tuple":
-                out.append("    %s(%s)," % (v.name, ", ".join(("#[try_into(ignore)] " if f.ti_ignore else "") + f.decl for f in v.fields)))
+                out.append("    %s(%s)," % (v.ident, ", ".join(("#[try_into(ignore)] " if f.ti_ignore else "") + f.decl for f in v.fields)))
             else:
-                out.append("    %s { %s }," % (v.name, ", ".join(("#[try_into(ignore)] " if f.ti_ignore else "") + "%s: %s" % (f.name, f.decl) for f in v.fields)))
+                out.append("    %s { %s }," % (v.ident, ", ".join(("#[try_into(ignore)] " if f.ti_ignore else "") + "%s: %s" % (f.name, f.decl) for f in v.fields)))
         out.append("}")
         return "\n".join(out)
 
@@ -338,7 +340,7 @@ def gen_enum(rng, fam):
             else:
                 tys = [r.choice(pool) for _ in range(r.choice([1, 2, 3]))]
         fields = [Field(d, i, FNAMES[j] if kind == "named" else None) for j, (d, i) in enumerate(tys)]
-        en.variants.append(Variant(name, kind, fields))
+        en.variants.append(Variant(name, kind, fields, raw=(name in RAWABLE and r.random() < 0.7)))
     # drop unused generic parameters (rustc rejects them whatever the derive does)
     text = " ".join(f.decl for v in en.variants for f in v.fields)
     used = []
@@ -421,16 +423,18 @@ def build_case(cid, en, rng, fam):
         for fi, f in enumerate(v.fields):
             lits.append(literal(f.inst, base + 10 * vi + fi + 1, (2 * vi + fi) % 8))
         if v.kind == "unit":
-            e = "E::%s" % v.name
+            e = "E::%s" % v.ident
         elif v.kind == "tuple":
-            e = "E::%s(%s)" % (v.name, ", ".join(lits))
+            e = "E::%s(%s)" % (v.ident, ", ".join(lits))
         else:
-            e = "E::%s { %s }" % (v.name, ", ".join("%s: %s" % (f.name, l) for f, l in zip(v.fields, lits)))
+            e = "E::%s { %s }" % (v.ident, ", ".join("%s: %s" % (f.name, l) for f, l in zip(v.fields, lits)))
         values.append(e)
         arms.append("%s => %s," % (vi if vi < nv - 1 else "_", e))
     items.append("pub fn mk(i: usize) -> EI { match i { %s } }" % " ".join(arms))
     items.append("pub const NV: usize = %d;" % nv)
     items.append("pub const VN: [&str; %d] = [%s];" % (nv, ", ".join('"%s"' % v.name for v in en.variants)))
+    # how a raw-identifier variant is spelt in TryUnwrapError's text is not documented: observed only
+    items.append("pub const RAWV: [bool; %d] = [%s];" % (nv, ", ".join("true" if v.ident != v.name else "false" for v in en.variants)))
     darms = []
     for v in en.variants:
         bs = ["f%d" % i for i in range(len(v.fields))]
@@ -512,13 +516,13 @@ def build_case(cid, en, rng, fam):
                         if form == "owned":
                             block(["let want = %s;" % want_o,
                                    "let (got, msg) = mk(i).%s().tu();" % lab,
-                                   "msgcell(%s, %s, &got, &msg, %s);" % (strict, kind, wmsg),
+                                   "if RAWV[i] { if got.starts_with(\"Err\") { obs(&format!(\"{}#rawmsg\", %s), &msg); } } else { msgcell(%s, %s, &got, &msg, %s); }" % (kind[1:], strict, kind, wmsg),
                                    "cell(%d, %s, got, want);" % (mn, kind)])
                         else:
                             block(["let %se = mk(i);" % ("mut " if form == "mut" else ""),
                                    "let want = %s;" % want_r,
                                    "let (got, msg) = e.%s().tu();" % lab,
-                                   "msgcell(%s, %s, &got, &msg, %s);" % (strict, kind, wmsg),
+                                   "if RAWV[i] { if got.starts_with(\"Err\") { obs(&format!(\"{}#rawmsg\", %s), &msg); } } else { msgcell(%s, %s, &got, &msg, %s); }" % (kind[1:], strict, kind, wmsg),
                                    "cell(%d, %s, got, want);" % (mn, kind)])
                     ncells += nv
         else:
